@@ -256,7 +256,9 @@ def cond_facts(c, pos=None, neg=None):
     """atomic conditions that must hold (pos) / must not hold (neg) when condition c is true"""
     if pos is None:
         pos, neg = [], []
-    if c[0] == 'and':
+    if c[0] == 'okcond':
+        cond_facts(c[1], pos, neg)
+    elif c[0] == 'and':
         for x in c[1]:
             cond_facts(x, pos, neg)
     elif c[0] == 'not':
@@ -269,8 +271,8 @@ def cond_facts(c, pos=None, neg=None):
         elif inner[0] == 'or':
             for x in inner[1]:
                 neg.append(x)
-        elif inner[0] not in ('and', 'alt'):
-            neg.append(inner)
+        else:
+            neg.append(inner)   # atoms, and conjunctions as a whole
     elif c[0] == 'alt':
         live = [(i, a, b) for i, (a, b) in enumerate(c[1]) if b != FALSE]
         if len(live) == 1:
@@ -300,6 +302,8 @@ def cond_under(c, pos, neg, depth=0):
     if any(c == f for f in neg):
         return False
     k = c[0]
+    if k == 'okcond':
+        return cond_under(c[1], pos, neg, depth + 1)
     if k == 'not':
         r = cond_under(c[1], pos, neg, depth + 1)
         return None if r is None else not r
@@ -501,6 +505,7 @@ class Interp:
               'loops': [] if top or not self.frames else list(self.frame['loops']), 'returns': [], 'mod': f['mod'], 'env_stack': []}
         self.frames.append(fr)
         env = Env()
+        fr['param_types'] = {p['pat'].get('name'): p['ty'].replace(' ', '') for p in f['params'] if p['pat'].get('name')}
         for p, a in zip(f['params'], args):
             self.bind(p['pat'], a, env)
         fr['nconds0'] = len(fr['conds'])
@@ -603,7 +608,7 @@ class Interp:
         return self.as_cond(v)
 
     def as_cond(self, v):
-        if v[0] in ('is', 'eq', 'not', 'and', 'or', 'true', 'false', 't'):
+        if v[0] in ('is', 'eq', 'not', 'and', 'or', 'true', 'false', 't', 'okcond'):
             return v
         if v[0] == 'lit' and v[1] == 'bool':
             return TRUE if v[2] else FALSE
@@ -788,7 +793,7 @@ class Interp:
         if c != FALSE:
             fr['returns'].append((pc, ('propagate', v)))
         # everything after `?` runs only when it succeeded
-        fr['conds'].append(ok)
+        fr['conds'].append(('okcond', ok) if ok not in (TRUE, FALSE) else ok)
         fr.setdefault('try_conds', 0)
         if v[0] == 'opt':
             pos, neg = cond_facts(ok)
@@ -899,13 +904,23 @@ class Interp:
             args = e.get('args') or []
             tmpl = args[0]['v'] if args and args[0]['k'] == 'Lit' else '?'
             vals = [self.expr(a, env) for a in args[1:]]
-            # inline captured identifiers {name} / {name:?}
+            # normal form: every placeholder positional (`{}` / `{:spec}`), captured identifiers and positional arguments in order
             import re
-            named = []
-            for mm in re.finditer(r'\{([A-Za-z_][A-Za-z0-9_]*)(:[^}]*)?\}', tmpl):
-                nm = mm.group(1)
-                named.append((nm, env.get(nm, ('path', nm))))
-            return ('fmt', tmpl, vals, named)
+            ordered = []
+            nxt = [0]
+
+            def sub(mm):
+                nm, spec = mm.group(1), mm.group(2) or ''
+                if nm and not nm.isdigit():
+                    ordered.append(env.get(nm, ('path', nm)))
+                elif nm and nm.isdigit():
+                    ordered.append(vals[int(nm)] if int(nm) < len(vals) else ('unknown', 'format index', e['line'], ''))
+                else:
+                    ordered.append(vals[nxt[0]] if nxt[0] < len(vals) else ('unknown', 'format arg', e['line'], ''))
+                    nxt[0] += 1
+                return '{' + spec + '}'
+            norm = re.sub(r'\{([A-Za-z_][A-Za-z0-9_]*|[0-9]+)?(:[^}]*)?\}', sub, tmpl.replace('{{', '\x00').replace('}}', '\x01')).replace('\x00', '{{').replace('\x01', '}}')
+            return ('fmt', norm, ordered, [])
         if n in ('panic', 'todo', 'unimplemented', 'unreachable'):
             return ('diverge', n, e['line'])
         if n == 'matches':
@@ -934,6 +949,32 @@ class Interp:
         self.templates.setdefault(tid, {'fn': self.frame['callee'], 'line': e['line'], 'text': self.tmpl_text(items)})
         return t
 
+    def acc_view(self, v):
+        """a Vec filled by exactly one `push` inside one finished loop is the same list as the corresponding iterator chain:
+        present it as the equivalent iteration pipeline so that `for`-loop and iterator-chain formulations give one grammar"""
+        if v[0] != 'acc':
+            return v
+        ent = self.accs[v[1]]['entries']
+        cur = {l[0] for l in self.frame['loops']}
+        if len(ent) != 1:
+            return v
+        e = ent[0]
+        loops = [l for l in e['loops'] if l[0] not in cur]
+        if len(loops) != 1:
+            return v
+        eid, src, conds = loops[0]
+        # conditions under which the push happens, relative to the loop (drop what already held when the loop started)
+        outer = self.frame['conds']
+        extra = [c for c in (e['cond'][1] if e['cond'][0] == 'and' else [e['cond']]) if c != TRUE and not any(c == o for o in outer)]
+        flat = []
+        for c in extra:
+            if c[0] == 'and':
+                flat.extend(c[1])
+            else:
+                flat.append(c)
+        flat = [c for c in flat if not any(c == o or (o[0] == 'and' and c in o[1]) for o in outer)]
+        return ('star', src, eid, e['val'], list(conds) + flat, False)
+
     def tmpl_items(self, ts, env, node):
         items = []
         i = 0
@@ -952,6 +993,7 @@ class Interp:
                     v = env.get(nx['v'])
                     if v is None:
                         v = self.unknown('quote hole #' + nx['v'] + ' not bound', node)
+                    v = self.acc_view(v)
                     items.append(('hole', nx['v'], v))
                     i += 2
                     continue
@@ -1141,6 +1183,8 @@ class Interp:
         args = [self.expr(a, env) for a in args_nodes]
         if m == 'unwrap_or':
             return self.unwrap_or(recv, args[0])
+        if m == 'unzip' and recv[0] == 'star':
+            return ('tuple', [('star', recv[1], recv[2], self.field(recv[3], '0'), recv[4], recv[5]), ('star', recv[1], recv[2], self.field(recv[3], '1'), recv[4], recv[5])])
         if m == 'unzip':
             c, v = self.as_opt(recv)
             if c is not None:
@@ -1160,7 +1204,7 @@ class Interp:
                 return ('t', ('mcall', recv, m, args))
             return ('mcall', recv, m, args)
         # method of a crate type?  (e.g. self.helper())
-        for q, f in self.c.fns.items():
+        for q, f in (self.c.fns.items() if recv[0] == 'param' and recv[2] == 'self' else ()):
             if f.get('impl_of') and f['name'] == m and q.endswith('::' + m) and ' as ' not in q:
                 if f['params'] and f['params'][0]['pat'].get('name') == 'self':
                     self.inline_calls.append((self.frame['callee'], q, e['line']))
@@ -1190,6 +1234,12 @@ class Interp:
                 return False   # array / collection field: `.map` is the array / iterator map
             return True
         if n['k'] == 'Path':
+            segs = n['path']['segs']
+            pty = self.frame.get('param_types', {}).get(segs[0]) if len(segs) == 1 else None
+            if pty and pty.lstrip('&').lstrip('mut').startswith(('[', 'Vec<', 'impl Iterator', 'implIterator')):
+                return False   # a parameter declared as array / slice / Vec / iterator
+            if pty and pty.lstrip('&').startswith('Option<'):
+                return True
             return recv[0] not in ('acc', 'tuple', 'reorder', 'new')
         return False
 
@@ -1209,6 +1259,10 @@ class Interp:
                 vs.append((c, ov))
             return ('alt', cs + [(TRUE, FALSE)]), ('alt', vs)
         if v[0] == 'propagate':
+            return FALSE, ('tuple', [])
+        if v[0] == 'ok':
+            return TRUE, v[1]
+        if v[0] == 'err':
             return FALSE, ('tuple', [])
         return None, None
 
